@@ -74,6 +74,11 @@ CHECKS = {
          "For max_hedged_attempts 1-3 and fixed / immediate / per-attempt (incl. zero entries) delays every order of attempt completions (ok/err) relative to the hedge start instants (before / at / after) is executed; in every state: attempts started <= max, attempt k starts >= delay(k) after attempt k-1 (all at the first poll in parallel mode), a success wakes the caller at that instant and the next poll returns the first successful attempt's payload, all-attempts-failed only when max attempts were started and all failed, never Pending after that; from every state a drain in which every remaining attempt fails must end in all-attempts-failed.",
          "Prompt executor; attempt tasks are tokio-spawned and run FIFO whenever the explorer yields; their relative order is explored through the gates.",
          "4 C12"),
+ "C13": ("ilv+seq+svcx", "model_checking",
+         "preemption-bounded DFS over atomic-step interleavings (limit), exhaustive feedback sequences (limit), explicit-state BFS over event schedules of the real AdaptiveService (in-flight / readiness)",
+         "Limit: every interleaving (<= 2 preemptions; thorough unbounded + a spurious CAS failure) of 2-3 threads feeding fast/slow/failed feedback into AimdController, Aimd and Vegas for three (min,initial,max) triples and decrease factors 0/0.5/1, with min <= limit <= max checked after every atomic step, plus every feedback sequence up to length 6-8 after three warm-ups. Service: every schedule of readiness checks, calls, polls, drops, gated completions (ok/err/panic) and ticks of 3-4 callers on clones; in every state in_flight() equals the harness's own count of live inner calls, poll_ready is Ready iff live < limit(), and after a drain in_flight() is 0 and readiness is granted.",
+         "Sequentially consistent memory for the interleaving part; prompt executor and poll granularity for the service part.",
+         "4 C13"),
 }
 
 NOT_YET = {}
